@@ -342,3 +342,57 @@ def c05j(F, R):
                 R.bad(key, f"`{name}` starts empty and is read ({len(uses)} use(s)) but nothing ever writes it: whatever is reported from it can no longer be reported", loc(st))
     if n == 0:
         raise Anchor("no empty-initialised locals found in the lints (the rule would pass vacuously)")
+
+
+@rule("C05", "C05.k.original-value-test-is-exact", floor=1)
+def c05k(F, R):
+    """`is_original_value(reg)` - which decides whether reading a saved register is reading the caller's garbage - holds exactly when the map says `reg` still holds *its own* entry value with offset 0: the test is evaluated for (same register, offset zero) in all four combinations"""
+    AVM = "riscv_analysis::cfg::available_value_map::AvailableValueMap"
+    cands = [q for q in F.fns if q.endswith("::is_original_value") and "available_value_map" in q]
+    if not cands:
+        raise Anchor("AvailableValueMap::is_original_value not found")
+    g = F.fn(cands[0])
+    body = g["hir"]["value"]
+    ifs = [n for n in walk(body, pats=False) if n.get("k") == "If" and peel_c(n["cond"]).get("k") == "LetExpr"]
+    if len(ifs) != 1:
+        R.bad("shape", f"UNEXTRACTABLE: expected one `if let Some(OriginalRegisterWithScalar(r, o)) = self.get(&reg)`, found {len(ifs)}", g["sp"])
+        return
+    c = peel_c(ifs[0]["cond"])
+    vs = [short(x.get("res") or "") for x in walk(c["pat"]) if x.get("res")]
+    if "OriginalRegisterWithScalar" not in vs:
+        R.bad("variant", f"is_original_value matches {vs}, not OriginalRegisterWithScalar", loc(ifs[0]))
+        return
+    binds = [b["name"] for b in walk(c["pat"]) if b.get("k") == "PBinding"]
+    param = [x.get("name") for x in g["hir"]["params"]][1]
+
+    def classify(e):
+        if e.get("k") == "Binary" and e["op"] in ("Eq", "Ne"):
+            names = {x.get("res") for x in walk(e, pats=False) if x.get("k") == "Path" and x.get("res_kind") == "Local"}
+            if param in names and len(binds) >= 1 and binds[0] in names:
+                return "same" if e["op"] == "Eq" else "other"
+            if len(binds) >= 2 and binds[1] in names and lit_value(e["b"]) == 0:
+                return "zero" if e["op"] == "Eq" else "nonzero"
+        return None
+    wrong = []
+    try:
+        for same in (True, False):
+            for zero in (True, False):
+                r = bool_eval(ifs[0]["then"], classify, {"same": same, "other": not same, "zero": zero, "nonzero": not zero})
+                if r != (same and zero):
+                    wrong.append(f"same register = {same}, offset zero = {zero}: {r}")
+        els = bool_eval(ifs[0]["else"], classify, {}) if ifs[0].get("else") is not None else None
+        if els is not False:
+            wrong.append(f"other kinds of value: {els}")
+    except BoolUnx as ex:
+        R.bad("condition|unextractable", f"UNEXTRACTABLE: is_original_value ({ex})", loc(ifs[0]))
+        return
+    if wrong:
+        R.bad("condition", f"is_original_value answers wrongly for {wrong[0]}: the check that a saved register is read while it still holds the caller's value fires for the wrong registers, or never", loc(ifs[0]))
+    else:
+        R.ok("condition", detail="true exactly for OriginalRegisterWithScalar(reg, 0) under the key reg", where=loc(ifs[0]))
+
+
+def peel_c(c):
+    while c.get("k") in ("DropTemps", "Use"):
+        c = c["e"]
+    return c
